@@ -7,6 +7,7 @@ package mpx
 import (
 	"github.com/basecomplextech/baselibrary/async"
 	"github.com/basecomplextech/baselibrary/status"
+	"github.com/basecomplextech/spec/internal/verifpoint"
 	"github.com/basecomplextech/spec/proto/pmpx"
 )
 
@@ -53,6 +54,7 @@ func (c *conn) receiveOpen(msg pmpx.Message) status.Status {
 	// Duplicates are impossible, but still check for them.
 	ch := openChannel(c, c.client, m)
 	_, exists := c.channels.GetOrSet(id, ch)
+	verifpoint.Point("conn.recv.open", verifpoint.Ptr(ch), verifpoint.B(exists), 0)
 	if exists {
 		ch.Free()
 		ch.free()
@@ -75,6 +77,7 @@ func (c *conn) receiveClose(msg pmpx.Message) status.Status {
 	if !ok {
 		return status.OK
 	}
+	verifpoint.Point("conn.recv.close", verifpoint.Ptr(ch), 0, 0)
 	defer ch.free()
 
 	return ch.receive(msg)
@@ -88,6 +91,7 @@ func (c *conn) receiveData(msg pmpx.Message) status.Status {
 	if !ok {
 		return status.OK
 	}
+	verifpoint.Point("conn.recv.lookup", verifpoint.Ptr(ch), 12, 0)
 	return ch.receive(msg)
 }
 
@@ -99,6 +103,7 @@ func (c *conn) receiveWindow(msg pmpx.Message) status.Status {
 	if !ok {
 		return status.OK
 	}
+	verifpoint.Point("conn.recv.lookup", verifpoint.Ptr(ch), 13, 0)
 	return ch.receive(msg)
 }
 
